@@ -130,6 +130,10 @@ func (vr *VerifiableReader) Cache(opts ...CacheOption) (err error) {
 		if err != nil {
 			return err
 		}
+		if got, want := r.TOCDigest(), gr.r.TOCDigest(); got != want {
+			// The chunk digests used below must be the ones of the TOC of this layer.
+			return fmt.Errorf("TOC of the passed reader (%v) differs from the TOC of this layer (%v)", got, want)
+		}
 	}
 	rootID := r.RootID()
 
